@@ -24,6 +24,10 @@ void __vf_memcpy(void *d, const void *s, size_t n);
 void __vf_memmove(void *d, const void *s, size_t n);
 void __vf_memset(void *d, int c, size_t n);
 extern int __vf_cur;
+extern int vf_steps;   /* scheduler step number (rt_sched.c); a constant in every unrolled iteration of the schedule loop */
+#ifndef VF_PRESTART
+#define VF_PRESTART 1
+#endif
 void __vf_lifetime_end(void *p, uint64_t n);
 void __vf_racy_pre(void *p); void __vf_racy_post(void *p);
 #define malloc(n) __vf_malloc(n)
